@@ -334,10 +334,10 @@ RStep(st, cf) ==
     [] it.e = "row_out" ->
          LET subs == Last(st.acc)
              s1 == [st EXCEPT !.acc = Front(@)]
-             \* (a row without any content is not drawn, stacked or side by side)
-             r == IF \A k \in 1..Len(subs) : SubEmpty(subs[k]) THEN top
-                  ELSE IF it.vert THEN AppendVertRow(top, subs, cf)
-                  ELSE AppendColumns(top, subs, cf)
+             \* (side by side a row without any content is not drawn; stacked, a row none of whose cells got any width)
+             r == IF it.vert THEN (IF subs = <<>> THEN top ELSE AppendVertRow(top, subs, cf))
+                  ELSE IF \E k \in 1..Len(subs) : ~SubEmpty(subs[k]) THEN AppendColumns(top, subs, cf)
+                  ELSE top
          IN IF r.panic THEN Fail(s1, "panic:no-previous-border")
             ELSE [SetTop(s1, r) EXCEPT !.todo = rest]
     [] OTHER -> Fail(st, "panic:unknown-item")
